@@ -22,6 +22,7 @@ package shmipc
 // only a state that persists is a leak (no wall-clock verdict).
 
 import (
+	"encoding/json"
 	"fmt"
 	"hash/fnv"
 	"math/rand"
@@ -209,6 +210,16 @@ type leakExec struct {
 	stallGate   chan struct{}
 	stallHits   uint64
 
+	// rendezvous (single mode): the event loop about to handle a close notification and the goroutine about to Close the
+	// same stream's other end are released at the same instant
+	rvArmed   int32
+	rvTarget  atomic.Value // *Stream
+	rvSess    atomic.Value // *Session
+	rvArrived int32
+	rvLoopIn  int32
+	rvDelay   int32
+	rvMet     uint64
+
 	mu       sync.Mutex
 	problems []string
 
@@ -240,7 +251,7 @@ type leakWorker struct {
 
 var leakHostileKinds = []string{"close with unread data", "flush on closed or half-closed end", "flush through the socket fallback",
 	"queue-full event", "flush failed (error exit)", "write on closed end", "pool put-back", "pool reuse", "pool put-back refused (closed instead)",
-	"data for a stream the peer had closed (zombie)", "hoard", "read on closed end", "close of half-closed end", "allocation failure (heap slice)"}
+	"data for a stream the peer had closed (zombie)", "simultaneous close of both ends", "hoard", "read on closed end", "close of half-closed end", "allocation failure (heap slice)"}
 
 func (x *leakExec) hit(w *leakWorker, kind string) {
 	if p, ok := x.hostile[kind]; ok {
@@ -286,7 +297,50 @@ func leakErrStr(err error) string {
 // ---------------------------------------------------------------------------------------------------------
 // stall handler (single mode): holds the consumer's event loop at handlePolling while the gate is closed
 
+func (x *leakExec) rvWait() {
+	atomic.AddInt32(&x.rvArrived, 1)
+	t0 := time.Now()
+	for i := 0; atomic.LoadInt32(&x.rvArrived) < 2; i++ {
+		if i&1023 == 1023 && time.Since(t0) > 5*time.Millisecond {
+			return // the partner did not come (the notification took another path): go on alone
+		}
+	}
+	atomic.AddUint64(&x.rvMet, 1)
+}
+
+func (x *leakExec) rvLoopSide(obj interface{}) {
+	if atomic.LoadInt32(&x.rvArmed) == 0 {
+		return
+	}
+	s, _ := obj.(*Session)
+	t, _ := x.rvSess.Load().(*Session)
+	if s == nil || s != t || !atomic.CompareAndSwapInt32(&x.rvLoopIn, 0, 1) {
+		return
+	}
+	x.rvWait()
+}
+
+func (x *leakExec) dispatchHook(obj interface{}, n int64) {
+	if n == int64(typeStreamClose) {
+		x.rvLoopSide(obj)
+	}
+}
+
+func (x *leakExec) closeEnterHook(obj interface{}, n int64) {
+	if atomic.LoadInt32(&x.rvArmed) == 0 {
+		return
+	}
+	st, _ := obj.(*Stream)
+	t, _ := x.rvTarget.Load().(*Stream)
+	if st == nil || st != t {
+		return
+	}
+	x.rvWait()
+	spinFor(int(atomic.LoadInt32(&x.rvDelay)))
+}
+
 func (x *leakExec) pollHook(obj interface{}, n int64) {
+	x.rvLoopSide(obj)
 	if atomic.LoadInt32(&x.stallOn) == 0 {
 		return
 	}
@@ -760,6 +814,154 @@ func (w *leakWorker) raceCloseFlush() {
 	w.hist[len(w.hist)-1].Note += " (right after the peer's close)"
 }
 
+// simultaneousCloseBurst opens a batch of fresh streams, sends a little data each way, and then closes the client ends and
+// the server ends at the same time from two goroutines (each Stream object is still used by one goroutine only): the
+// peer's close notification races with the local Close of the same stream.
+func (w *leakWorker) simultaneousCloseBurst() {
+	x := w.x
+	m := 4 + w.rng.Intn(29)
+	var batch []*leakSlot
+	for i := 0; i < m; i++ {
+		st, err := x.p.client.OpenStream()
+		if err != nil {
+			break
+		}
+		sl := &leakSlot{idx: len(w.slots), id: st.StreamID()}
+		sl.ends[0] = st
+		w.slots = append(w.slots, sl)
+		batch = append(batch, sl)
+	}
+	w.rec("burst-open", nil, 0, len(batch), "")
+	for i, sl := range batch {
+		w.opWrite(sl, 0, 1+w.rng.Intn(300))
+		w.opFlush(sl, 0, 0)
+		if (i+1)%int(x.cs.QueueCap) == 0 {
+			fence() // let the consumer drain the tiny queue instead of running into 10 ms flush retries
+		}
+	}
+	// the server ends must exist before they can be closed
+	if w.single {
+		if !w.settle() {
+			return
+		}
+	} else {
+		waitUntil(10*time.Second, func() bool {
+			w.claimAccepted()
+			for _, sl := range batch {
+				if sl.ends[1] == nil {
+					return false
+				}
+			}
+			return true
+		})
+	}
+	if w.rng.Intn(2) == 0 {
+		for _, sl := range batch {
+			if sl.ends[1] != nil && w.rng.Intn(2) == 0 {
+				w.opWrite(sl, 1, 1+w.rng.Intn(300))
+				w.opFlush(sl, 1, 0)
+			}
+		}
+	}
+	first := w.rng.Intn(2)
+	skew := w.rng.Intn(4000)
+	var ord [2][]*leakSlot
+	for side := 0; side < 2; side++ {
+		for _, sl := range batch {
+			if sl.ends[side] != nil && !sl.closed[side] {
+				ord[side] = append(ord[side], sl)
+			}
+		}
+	}
+	if w.rng.Intn(4) == 0 {
+		o := ord[1-first]
+		for i, j := 0, len(o)-1; i < j; i, j = i+1, j-1 {
+			o[i], o[j] = o[j], o[i]
+		}
+	}
+	if w.single {
+		// targeted: one pair at a time; the loop (about to handle the close notification) and the closer of the other end are
+		// held at their hook points and released together
+		if !w.settle() {
+			return
+		}
+		for _, sl := range batch {
+			if sl.ends[0] == nil || sl.ends[1] == nil || sl.closed[0] || sl.closed[1] {
+				continue
+			}
+			a := first
+			if w.rng.Intn(4) == 0 {
+				a = 1 - first
+			}
+			b := 1 - a
+			x.rvTarget.Store(sl.ends[b])
+			x.rvSess.Store(sl.ends[b].session)
+			atomic.StoreInt32(&x.rvDelay, int32(w.rng.Intn(64)))
+			atomic.StoreInt32(&x.rvArrived, 0)
+			atomic.StoreInt32(&x.rvLoopIn, 0)
+			atomic.StoreInt32(&x.rvArmed, 1)
+			hd := make(chan struct{})
+			go func(st *Stream) {
+				defer close(hd)
+				defer func() {
+					if r := recover(); r != nil {
+						x.problem("panic in Close (rendezvous helper): %v", r)
+					}
+				}()
+				st.Close()
+			}(sl.ends[b])
+			sl.ends[a].Close()
+			<-hd
+			atomic.StoreInt32(&x.rvArmed, 0)
+			sl.closed[0], sl.closed[1] = true, true
+		}
+		w.rec("simultaneous-close", nil, 0, len(batch), "rendezvous at PollPopped/EventDispatch and StreamCloseEnter, one pair at a time")
+		x.hit(w, "simultaneous close of both ends")
+		atomic.AddUint64(x.hostile["simultaneous close of both ends"], uint64(len(batch)-1))
+		return
+	}
+	// lock-step: the second goroutine closes stream i's other end while (or right after) the first one closes stream i
+	var progress int32 = -1
+	lead := int32(w.rng.Intn(3)) - 1
+	skews := make([]int, len(ord[1-first]))
+	for i := range skews {
+		skews[i] = w.rng.Intn(1 + skew/16)
+	}
+	done := make(chan struct{})
+	defer func() {
+		atomic.StoreInt32(&progress, 1<<30) // whatever happens to this goroutine, the helper must not spin for ever
+		<-done
+	}()
+	go func() {
+		defer close(done)
+		defer func() {
+			if r := recover(); r != nil {
+				x.problem("panic in Close (lock-step helper): %v", r)
+			}
+		}()
+		for i, sl := range ord[1-first] {
+			for atomic.LoadInt32(&progress) < int32(i)+lead && atomic.LoadInt32(&progress) < int32(len(ord[first])) {
+			}
+			spinFor(skews[i])
+			sl.ends[1-first].Close()
+		}
+	}()
+	for i, sl := range ord[first] {
+		atomic.StoreInt32(&progress, int32(i))
+		sl.ends[first].Close()
+	}
+	atomic.StoreInt32(&progress, 1<<30)
+	<-done
+	for side := 0; side < 2; side++ {
+		for _, sl := range ord[side] {
+			sl.closed[side] = true
+		}
+	}
+	w.rec("simultaneous-close", nil, 0, len(batch), fmt.Sprintf("first=%s skew=%d spins", leakSide(first), skew))
+	x.hit(w, "simultaneous close of both ends")
+	atomic.AddUint64(x.hostile["simultaneous close of both ends"], uint64(len(batch)-1))
+}
+
 func (w *leakWorker) step() {
 	x := w.x
 	r := w.rng.Intn(100)
@@ -838,8 +1040,10 @@ func (w *leakWorker) step() {
 		if w.single && x.cs.QueueCap <= 8 {
 			w.queueFullEpisode()
 		}
-	case r < 99:
+	case r < 98:
 		w.raceCloseFlush()
+	case r < 99:
+		w.simultaneousCloseBurst()
 	default:
 		w.claimAccepted()
 	}
@@ -917,7 +1121,14 @@ func (w *leakWorker) drainEverything() bool {
 			w.aborted = "pair did not quiesce during a drain checkpoint"
 			return false
 		}
-		w.claimAccepted()
+		// every stream the server session created must have reached this worker (hand-off through the accept goroutine)
+		if !waitUntil(20*time.Second, func() bool {
+			w.claimAccepted()
+			return len(w.x.untracked([]*leakWorker{w})) == 0
+		}) {
+			w.aborted = "accepted streams did not reach the accept table during a drain checkpoint"
+			return false
+		}
 		moved := false
 		for _, sl := range w.slots {
 			for side := 0; side < 2; side++ {
@@ -1046,6 +1257,30 @@ func (x *leakExec) accounting(w *leakWorker) (inUse, accounted int, detail strin
 	return
 }
 
+// untracked returns the server-side streams no worker has obtained yet: accepted by the session (they are in its stream
+// table) but still on their way through acceptCh / the accept goroutine. They are zombies or streams whose client end
+// was closed before a worker looked at the accept table. (Streams a worker holds are never returned, closed or not: a
+// stream that stays in the table after the harness closed it is exactly what the oracle has to see.)
+func (x *leakExec) untracked(workers []*leakWorker) []*Stream {
+	tracked := map[*Stream]bool{}
+	for _, w := range workers {
+		for _, sl := range w.slots {
+			if sl.ends[1] != nil {
+				tracked[sl.ends[1]] = true
+			}
+		}
+	}
+	var out []*Stream
+	x.p.server.streamLock.RLock()
+	for _, st := range x.p.server.streams {
+		if !tracked[st] {
+			out = append(out, st)
+		}
+	}
+	x.p.server.streamLock.RUnlock()
+	return out
+}
+
 // verifyEmpty checks the end-state oracle; returns the list of discrepancies.
 func (x *leakExec) verifyEmpty() []string {
 	var out []string
@@ -1121,7 +1356,10 @@ func (x *leakExec) settleAndVerify(workers []*leakWorker, closing bool) (problem
 			if !closing {
 				break
 			}
-			z := x.p.drainAccepted()
+			// the application closes every stream it is handed: the ones still travelling to the accept table are taken from
+			// the session's table directly (same objects), so that the hand-off goroutine's scheduling cannot matter
+			z := x.untracked(workers)
+			x.p.drainAccepted()
 			if len(z) == 0 {
 				break
 			}
@@ -1192,6 +1430,8 @@ func runLeakCase(c *checkCtx, cs leakCase) (res leakResult) {
 		}
 	}
 	k.on(vpPollPopped, x.pollHook)
+	k.on(vpEventDispatch, x.dispatchHook)
+	k.on(vpStreamCloseEnter, x.closeEnterHook)
 	k.install()
 	defer func() {
 		x.stallEnd()
@@ -1203,6 +1443,11 @@ func runLeakCase(c *checkCtx, cs leakCase) (res leakResult) {
 		if p.client.IsClosed() || p.server.IsClosed() {
 			res.discarded = "session died during the history"
 		}
+		x.mu.Lock()
+		if len(x.problems) > 0 && res.discarded == "" {
+			res.discarded = x.problems[0]
+		}
+		x.mu.Unlock()
 		p.close()
 		h := fnv.New64a()
 		for _, w := range res.workers {
@@ -1238,6 +1483,19 @@ func runLeakCase(c *checkCtx, cs leakCase) (res leakResult) {
 			return false
 		}
 		if len(problems) > 0 {
+			if closing {
+				// diagnosis: every end was closed by the harness, so no stream should be left in a session's table
+				for _, sess := range []*Session{p.client, p.server} {
+					sess.streamLock.RLock()
+					for id, st := range sess.streams {
+						if len(problems) < 16 {
+							problems = append(problems, fmt.Sprintf("diagnosis: stream id %d is still in the %s session's table, state %d (0 open, 1 closed, 2 half-closed), %d unread bytes",
+								id, map[bool]string{true: "client", false: "server"}[sess.isClient], st.getStreamState(), st.recvBuf.Len()))
+						}
+					}
+					sess.streamLock.RUnlock()
+				}
+			}
 			res.problems = problems
 			res.checkpoint = fmt.Sprintf("%s checkpoint #%d after step %d", kind, res.checkN, at)
 			return false
@@ -1401,9 +1659,28 @@ func checkLeak(c *checkCtx) {
 		"is legitimately held until that end is closed")
 	c.assume("client and server live in one process and share one bufferManager object and one event loop; the child-process peer variant is not part of this module")
 	c.assume("a history in which a session died or an allocator ABA suspect (known finding F1) coincided with a discrepancy is discarded as inconclusive")
-	n := c.pick(210, 4200)
+	n := c.pick(360, 7200)
+	var replay *leakCase
+	if c.tier == "replay" {
+		// ./run.sh C09 replay <file>: the recorded case is run 20 times (single-mode histories reproduce up to event-loop timing)
+		var doc struct {
+			Witness struct {
+				Case leakCase `json:"case"`
+			} `json:"witness"`
+		}
+		data, err := os.ReadFile(os.Getenv("VERIF_REPLAY"))
+		if err != nil || json.Unmarshal(data, &doc) != nil || doc.Witness.Case.Workers == 0 {
+			c.noObservation("replay file unreadable: " + os.Getenv("VERIF_REPLAY"))
+			return
+		}
+		replay = &doc.Witness.Case
+		n = 20
+	}
 	for i := 0; i < n; i++ {
 		cs := genLeakCase(c, i)
+		if replay != nil {
+			cs = *replay
+		}
 		res := runLeakCase(c, cs)
 		name := fmt.Sprintf("leak-%d", cs.Idx)
 		if res.x == nil {
@@ -1422,6 +1699,7 @@ func checkLeak(c *checkCtx) {
 		c.count("reads spanning >=2 slices", int64(x.crossRead))
 		c.count("late zombies closed at checkpoints", int64(res.zombies))
 		c.count("event loop held at handlePolling (hook hits)", int64(x.stallHits))
+		c.count("close/close rendezvous met (loop and closer released together)", int64(x.rvMet/2))
 		c.count("ABA suspects", int64(res.suspects))
 		for kind, v := range x.hostile {
 			c.count("hostile: "+kind, int64(atomic.LoadUint64(v)))
